@@ -220,6 +220,7 @@ def enum_pencils(tier, seed):
         yield ("tangent", fi)
     yield ("circles", 0)
     yield ("high-contact", 0)
+    yield ("near-coincident-points", 0)
 
 
 def judge_common(ctx, G, c1, c2, A1, A2, base, inputs, tagbase, max_pts=4, double=None, tol=1e-6):
@@ -286,6 +287,52 @@ def case_pencils(ctx, cfg):
             ctx.state((kind, fi, str(l1), str(l2)))
             if not judge_common(ctx, G, G.Conic(A1.astype(float)), G.Conic(A2.astype(float)), A1, A2, [a, b, c], {"a_double": a, "b": b, "c": c, "lambda": str(l1), "mu": str(l2), "self": A1, "other": A2}, "tangent-pencil"):
                 return
+    elif kind == "near-coincident-points":
+        # unit circle (and ellipses) against a pair of lines whose vertex lies 2^-20 outside the conic: two of the four
+        # common points are about 2e-6 apart - distinct by a factor 100 with respect to the library's tolerance
+        eps = 2.0**-20
+        for (a2, b2), (vx, vy, s1, s2) in itertools.product([(1, 1), (4, 1), (1, 4)], [(1, 0, 1, -1), (1, 0, 2, -1), (-1, 0, 1, -1), (0, 1, 1, -1)]):
+            # conic x^2/a2 + y^2/b2 = 1 ; vertex just outside on a coordinate axis
+            ax, ay = (a2**0.5, 0.0) if vy == 0 else (0.0, b2**0.5)
+            V = np.array([vx * (ax + eps) if vy == 0 else 0.0, vy * (ay + eps) if vy != 0 else 0.0])
+            A1 = np.diag([1.0 / a2, 1.0 / b2, -1.0])
+            # lines through V: direction (1, s) resp. (s, 1) (transversal to the axis through V)
+            lines = []
+            for sl in (s1, s2):
+                dvec = np.array([sl, 1.0]) if vy == 0 else np.array([1.0, sl])
+                lines.append(np.array([dvec[1], -dvec[0], -(dvec[1] * V[0] - dvec[0] * V[1])]))
+            A2 = np.outer(lines[0], lines[1])
+            A2 = A2 + A2.T
+            # own computation of the four common points: each line with the conic (quadratic in the line parameter)
+            base = []
+            for l in lines:
+                dvec = np.array([-l[1], l[0]])
+                p0 = V
+                qa = dvec[0] ** 2 / a2 + dvec[1] ** 2 / b2
+                qb = 2 * (p0[0] * dvec[0] / a2 + p0[1] * dvec[1] / b2)
+                qc = p0[0] ** 2 / a2 + p0[1] ** 2 / b2 - 1
+                disc = qb * qb - 4 * qa * qc
+                assert disc > 0
+                for sg in (1, -1):
+                    t_ = (-qb + sg * disc**0.5) / (2 * qa)
+                    base.append((p0[0] + t_ * dvec[0], p0[1] + t_ * dvec[1], 1.0))
+            dmin = min(np.hypot(p[0] - q[0], p[1] - q[1]) for p, q in itertools.combinations(base, 2))
+            assert 1e-7 < dmin < 1e-5, dmin
+            ctx.state((kind, a2, b2, vx, vy, s1, s2))
+            ctx.tally("near-pair-distance-1e-6")
+            for x, y, tag in ((A1, A2, "conic,line-pair"), (A2, A1, "line-pair,conic")):
+                c1, c2 = G.Conic(x), G.Conic(y)
+                r, e = ctx.call(c1.intersect, c2)
+                ctx.trace()
+                inputs = {"conic": [a2, b2], "vertex": V, "slopes": [s1, s2], "order": tag}
+                if e is not None:
+                    ctx.fail(f"near-coincident:{type(e).__name__}", "intersect", inputs, base, e)
+                    return
+                pts = [np.asarray(p.array) for p in r]
+                missing = [b for b in base if not any(proj_eq(p, np.array(b), 2e-8) for p in pts)]
+                if missing or len(pts) > 4:
+                    ctx.fail("near-coincident:common-point-missing", "intersect", {**inputs, "missing": missing}, base, pts)
+                    return
     elif kind == "high-contact":
         # pairs with a single common point of multiplicity four (the cubic resolvent has a triple root), and of multiplicity three
         par = np.array([[2, 0, 0], [0, 0, -1], [0, -1, 0]], dtype=np.int64)  # x^2 = y
